@@ -824,3 +824,236 @@ def slot_bytes(slot):
     t, op = slot
     return {'main': [op], 'CB': [0xCB, op], 'ED': [0xED, op], 'DD': [0xDD, op], 'FD': [0xFD, op],
             'DDCB': [0xDD, 0xCB, None, op], 'FDCB': [0xFD, 0xCB, None, op]}[t]
+
+
+# ---------------------------------------------------------------------------
+# Machine cycles of each instruction for ULA contention (DESIGN.md section 3.2).
+# Transcribed from the published contention tables ("Contended memory" / instruction breakdown in the
+# comp.sys.sinclair FAQ): each entry is (bus address, T-states) in order; 'ir' is the I:R refresh address
+# put on the bus during internal cycles; IO cycles are expanded by the port-address cases at fold time.
+
+CYCLE_CONVENTIONS = [
+    'the five trailing internal cycles of a repeating OTIR/OTDR carry BC as it was before B was decremented (both skoolkit '
+    'implementations do this; the published table says only "bc:1 x5"; Fuse uses BC after the decrement)',
+    'while halted (HALT state 1) the opcode fetch of the HALT step is from PC+1',
+    'a DD/FD prefix before an opcode it does not affect is one 4 T-state fetch at PC',
+    'undefined ED opcodes are two 4 T-state fetches',
+]
+
+
+class Cyc:
+    def __init__(self, addr, n, cond=None, io=False):
+        self.addr, self.n, self.cond, self.io = addr, n, cond, io
+
+    def __repr__(self):
+        return '%s%s:%d%s' % ('IO ' if self.io else '', z3.simplify(self.addr), self.n, '' if self.cond is None else ' if %s' % z3.simplify(self.cond))
+
+
+def cycles(slot, regs, mem):
+    """-> list of Cyc for the instruction selected by slot from the pre-state (regs, mem)"""
+    table, op = slot
+    s = St(regs, mem)
+    pc = s.pc()
+    ir = z3.Concat(s.g8(I), s.g8(R))
+    out = []
+
+    def m(addr, n, cond=None, times=1):
+        for _ in range(times):
+            out.append(Cyc(addr, n, cond))
+
+    def io(port):
+        out.append(Cyc(port, 0, None, io=True))
+
+    if table == 'main':
+        _cyc_main(s, op, None, pc, ir, m, io)
+    elif table in ('DD', 'FD'):
+        if uses_index(op):
+            m(pc, 4)
+            _cyc_main(s, op, 'IX' if table == 'DD' else 'IY', pc + 1, ir, m, io)
+        else:
+            m(pc, 4)
+    elif table == 'CB':
+        x, y, z = op >> 6, (op >> 3) & 7, op & 7
+        m(pc, 4); m(pc + 1, 4)
+        if z == 6:
+            hl = s.g16(H, L)
+            m(hl, 3); m(hl, 1)
+            if x != 1:
+                m(hl, 3)
+    elif table in ('DDCB', 'FDCB'):
+        x = op >> 6
+        hi, lo = (IXH, IXL) if table == 'DDCB' else (IYH, IYL)
+        addr = s.g16(hi, lo) + z3.SignExt(8, s.rd(pc + 2))
+        m(pc, 4); m(pc + 1, 4); m(pc + 2, 3); m(pc + 3, 3); m(pc + 3, 1, times=2)
+        m(addr, 3); m(addr, 1)
+        if x != 1:
+            m(addr, 3)
+    elif table == 'ED':
+        _cyc_ed(s, op, pc, ir, m, io)
+    return out
+
+
+def _cyc_main(s, op, prefix, pc, ir, m, io):
+    """pc = address of the opcode byte itself (after any prefix)"""
+    rg = Regs(prefix)
+    x, y, z = op >> 6, (op >> 3) & 7, op & 7
+    p, q = y >> 1, y & 1
+    f = s.g8(F)
+    hl = s.g16(H, L)
+    sp = s.sp()
+
+    def idx(dpc):
+        return s.g16(rg.h, rg.l) + z3.SignExt(8, s.rd(dpc))
+
+    if op == 0x76 and prefix is None:                        # HALT (convention: fetch from PC+1 while halted)
+        m(z3.If(s.r[HALT] != 0, pc + 1, pc), 4)
+        return
+    m(pc, 4)
+    if x == 0:
+        if z == 0:
+            if y == 2:                                       # DJNZ
+                taken = (s.g8(B) - 1) != 0
+                m(ir, 1); m(pc + 1, 3); m(pc + 1, 1, taken, 5)
+            elif y >= 3:                                     # JR
+                taken = None if y == 3 else cond(y - 4, f)
+                m(pc + 1, 3); m(pc + 1, 1, taken, 5)
+        elif z == 1:
+            if q == 0:
+                m(pc + 1, 3); m(pc + 2, 3)
+            else:
+                m(ir, 1, times=7)
+        elif z == 2:
+            if p == 0:
+                m(s.g16(B, C), 3)
+            elif p == 1:
+                m(s.g16(D, E), 3)
+            else:
+                nn = s.rd16(pc + 1)
+                m(pc + 1, 3); m(pc + 2, 3); m(nn, 3)
+                if p == 2:
+                    m(nn + 1, 3)
+        elif z == 3:
+            m(ir, 1, times=2)
+        elif z in (4, 5):
+            if y == 6:
+                if prefix:
+                    a = idx(pc + 1)
+                    m(pc + 1, 3); m(pc + 1, 1, times=5); m(a, 3); m(a, 1); m(a, 3)
+                else:
+                    m(hl, 3); m(hl, 1); m(hl, 3)
+        elif z == 6:
+            if y == 6:
+                if prefix:
+                    a = idx(pc + 1)
+                    m(pc + 1, 3); m(pc + 2, 3); m(pc + 2, 1, times=2); m(a, 3)
+                else:
+                    m(pc + 1, 3); m(hl, 3)
+            else:
+                m(pc + 1, 3)
+    elif x == 1:
+        if op == 0x76:
+            pass
+        elif y == 6 or z == 6:
+            if prefix:
+                a = idx(pc + 1)
+                m(pc + 1, 3); m(pc + 1, 1, times=5); m(a, 3)
+            else:
+                m(hl, 3)
+    elif x == 2:
+        if z == 6:
+            if prefix:
+                a = idx(pc + 1)
+                m(pc + 1, 3); m(pc + 1, 1, times=5); m(a, 3)
+            else:
+                m(hl, 3)
+    else:
+        if z == 0:                                           # RET cc
+            taken = cond(y, f)
+            m(ir, 1); m(sp, 3, taken); m(sp + 1, 3, taken)
+        elif z == 1:
+            if q == 0 or p == 0:                             # POP / RET
+                m(sp, 3); m(sp + 1, 3)
+            elif p == 3:                                     # LD SP,HL
+                m(ir, 1, times=2)
+        elif z == 2:
+            m(pc + 1, 3); m(pc + 2, 3)
+        elif z == 3:
+            if y == 0:
+                m(pc + 1, 3); m(pc + 2, 3)
+            elif y == 2:                                     # OUT (n),A
+                m(pc + 1, 3); io(z3.Concat(s.g8(A), s.rd(pc + 1)))
+            elif y == 3:                                     # IN A,(n)
+                m(pc + 1, 3); io(z3.Concat(s.g8(A), s.rd(pc + 1)))
+            elif y == 4:                                     # EX (SP),HL
+                m(sp, 3); m(sp + 1, 3); m(sp + 1, 1); m(sp + 1, 3); m(sp, 3); m(sp, 1, times=2)
+        elif z == 4:                                         # CALL cc
+            taken = cond(y, f)
+            m(pc + 1, 3); m(pc + 2, 3); m(pc + 2, 1, taken); m(sp - 1, 3, taken); m(sp - 2, 3, taken)
+        elif z == 5:
+            if q == 0:                                       # PUSH
+                m(ir, 1); m(sp - 1, 3); m(sp - 2, 3)
+            elif p == 0:                                     # CALL
+                m(pc + 1, 3); m(pc + 2, 3); m(pc + 2, 1); m(sp - 1, 3); m(sp - 2, 3)
+        elif z == 6:
+            m(pc + 1, 3)
+        else:                                                # RST
+            m(ir, 1); m(sp - 1, 3); m(sp - 2, 3)
+
+
+def _cyc_ed(s, op, pc, ir, m, io):
+    x, y, z = op >> 6, (op >> 3) & 7, op & 7
+    p, q = y >> 1, y & 1
+    hl = s.g16(H, L)
+    bc = s.g16(B, C)
+    sp = s.sp()
+    m(pc, 4); m(pc + 1, 4)
+    if x == 1:
+        if z in (0, 1):
+            io(bc)
+        elif z == 2:
+            m(ir, 1, times=7)
+        elif z == 3:
+            nn = s.rd16(pc + 2)
+            m(pc + 2, 3); m(pc + 3, 3); m(nn, 3); m(nn + 1, 3)
+        elif z == 5:
+            m(sp, 3); m(sp + 1, 3)
+        elif z == 7:
+            if y < 4:
+                m(ir, 1)
+            elif y in (4, 5):
+                m(hl, 3); m(hl, 1, times=4); m(hl, 3)
+    elif x == 2 and z <= 3 and y >= 4:
+        repeat = y >= 6
+        if z == 0:
+            de = s.g16(D, E)
+            again = z3.And(z3.BoolVal(repeat), (bc - 1) != 0)
+            m(hl, 3); m(de, 3); m(de, 1, times=2); m(de, 1, again, 5)
+        elif z == 1:
+            res = s.g8(A) - s.rd(hl)
+            again = z3.And(z3.BoolVal(repeat), (bc - 1) != 0, res != 0)
+            m(hl, 3); m(hl, 1, times=5); m(hl, 1, again, 5)
+        elif z == 2:
+            b1 = s.g8(B) - 1
+            again = z3.And(z3.BoolVal(repeat), b1 != 0)
+            m(ir, 1); io(bc); m(hl, 3); m(hl, 1, again, 5)
+        else:
+            b1 = s.g8(B) - 1
+            bc1 = z3.Concat(b1, s.g8(C))
+            again = z3.And(z3.BoolVal(repeat), b1 != 0)
+            # convention: the five trailing cycles of OTIR/OTDR carry BC as it was before B was decremented
+            m(ir, 1); m(hl, 3); io(bc1); m(bc, 1, again, 5)
+
+
+def contended(machine, addr16, odd_bank=None):
+    """is the 16-bit bus address contended?  48K: 0x4000-0x7FFF; 128K: also 0xC000-0xFFFF when an odd bank is paged"""
+    c = z3.And(z3.UGE(addr16, 0x4000), z3.ULT(addr16, 0x8000))
+    if machine == '128K':
+        c = z3.Or(c, z3.And(odd_bank, z3.UGE(addr16, 0xC000)))
+    return c
+
+
+def io_cycles(hi_contended, low_bit_set):
+    """the four documented I/O contention cases (concrete booleans) -> [(contended?, T-states)]"""
+    if hi_contended:
+        return [(True, 1)] * 4 if low_bit_set else [(True, 1), (True, 3)]
+    return [(False, 4)] if low_bit_set else [(False, 1), (True, 3)]
